@@ -26,6 +26,8 @@ def configs(tier):
         out.append({"part": "fit", "nets": nets, "bases": len(nets) == 2, "scheduler": False, "data": data})
     out.append({"part": "index-lemmas"})
     out.append({"part": "second-fit", "nets": ["rbm_am", "rbm_ph"], "bases": True, "scheduler": False, "data": "tensor"})
+    # the callee that provides the reference-basis rows the negative phase starts from (its contract is assumed by the fit part)
+    out.append({"part": "refbasis"})
     return out
 
 
@@ -100,6 +102,9 @@ def _second_fit(ctx, cfg):
 
 
 def run_config(ctx, cfg):
+    if cfg["part"] == "refbasis":
+        from lemmas import C19
+        return C19._refbasis(ctx, cfg)
     if cfg["part"] == "second-fit":
         return _second_fit(ctx, cfg)
     if cfg["part"] == "fit":
